@@ -487,6 +487,23 @@ static void dispatch(const std::string& op, vh::Reader& r, vh::Out& o)
 			std::sort(l.begin(), l.end());
 		o.fl(l);
 	}
+	// ---- the helpers composed: statistics of a Linear_Space grid, and a grid point looked up in its own grid
+	// (theorems C19_stats_of_grids_and_combined_lists, C19_closest_location_lookup): mean, median, index found for grid[k], grid[k], grid[index]
+	else if(op == "gridstat")
+	{
+		double a = r.num(), b = r.num();
+		long n = r.integer(), k = r.integer();
+		std::vector<double> g = Linear_Space(a, b, n);
+		double mean			  = Arithmetic_Mean(g);
+		std::vector<double> g2 = g;
+		double med			  = Median(g2);
+		unsigned int idx	  = Locate_Closest_Location(g, g[k]);
+		o.f(mean);
+		o.f(med);
+		o.i(idx);
+		o.f(g[k]);
+		o.f(idx < g.size() ? g[idx] : std::nan(""));
+	}
 	else
 		o.w("HARNESSERR unknown_op");
 }
